@@ -60,6 +60,14 @@ def gen(rng, tier):
         add(L.g_signal(rng, cmd=[3, ty, L.g_bytes(rng, rng.randrange(0, 12))]), "reject-command", "C08_reject_command")
         s = L.g_signal(rng); s[6] = 1
         add(s, "reject-encrypted", "C08_reject_encrypted")
+        # an encrypted section's command bytes are ciphertext: whatever they look like (unsupported type, a
+        # time-less time_signal / splice_insert), the answer is the encryption error (the theorem has no hypothesis
+        # on the command); likewise a wrong table id wins over everything else
+        for cmd in ([3, ty, L.g_bytes(rng, rng.randrange(0, 12))], [1, []], [2, 7, [[1, [1, []], [], 1, 2, 3]]]):
+            s = L.g_signal(rng, cmd=cmd); s[6] = 1
+            add(s, "reject-encrypted-odd-command", "C08_reject_encrypted")
+            s = L.g_signal(rng, cmd=cmd); s[1] = rng.choice([0, 2, 0xFB, 0xFD, 0xFF]); s[6] = rng.randrange(2)
+            add(s, "reject-table-id-odd-command", "C08_reject_table_id")
         s = L.g_signal(rng); s[1] = rng.choice([0, 2, 0xFB, 0xFD, 0xFF, rng.randrange(256)])
         if s[1] != 0xFC:
             add(s, "reject-table-id", "C08_reject_table_id")
